@@ -75,6 +75,14 @@ type FuncContract struct {
 	Flags   map[string]bool
 	GhostUpd []GhostUpdate
 	At       []AtClause
+	OnlyFlows []OnlyFlow
+}
+
+// OnlyFlow: parameter Param may only be used as an argument of calls to one of Callees.
+type OnlyFlow struct {
+	Param   string
+	Callees []string
+	Props   []string
 }
 
 type AtClause struct {
@@ -291,6 +299,17 @@ func ParseContractsFile(path string) (*Contracts, error) {
 			for _, k := range strings.Fields(rest) {
 				cur.Flags[k] = true
 			}
+		case "onlyflows":
+			// onlyflows {props} <param> <callee> <callee> ...
+			if cur == nil {
+				return nil, fail(fmt.Errorf("onlyflows outside function contract"))
+			}
+			props, r := parseProps(rest)
+			fsx := strings.Fields(r)
+			if len(fsx) < 1 {
+				return nil, fail(fmt.Errorf("usage: onlyflows <param> <callee>..."))
+			}
+			cur.OnlyFlows = append(cur.OnlyFlows, OnlyFlow{Param: fsx[0], Callees: fsx[1:], Props: props})
 		case "ghostset":
 			if cur == nil {
 				return nil, fail(fmt.Errorf("ghostset outside function contract"))
